@@ -191,17 +191,137 @@ class Typer:
                 self.run(st.orelse)
 
 
+class TermTyper(Typer):
+    """The same typing on value-graph terms: what the returned mean and error are made of, wherever the statements that
+    compute them were put (helpers, methods of a private carrier class, named temporaries)."""
+
+    def __init__(self, fi, weights: str, samples: str):
+        super().__init__(fi, weights, samples)
+        from ..symex import sym as _sym
+        self.leaf = {_sym(weights): self.env[weights], _sym(samples): self.env[samples]}
+        self.memo: Dict[int, Ty] = {}
+        self.ln = fi.lineno
+
+    class _At:
+        def __init__(self, line, text):
+            self.lineno, self._t = line, text
+
+    def tt(self, t) -> Ty:
+        r = self.memo.get(t.uid)
+        if r is None:
+            self.memo[t.uid] = self.const()          # cycles through loop-carried terms
+            r = self._tt(t)
+            self.memo[t.uid] = r
+        return r
+
+    def _tt(self, t) -> Ty:
+        from ..symex import array_fn, call_parts, show as _show, strip_wrappers as _sw
+        if t in self.leaf:
+            return self.leaf[t]
+        t0 = _sw(t)
+        if t0 is not t:
+            return self.tt(t0)
+        op = t.op
+        at = self._At(self.ln, _show(t, maxdepth=2)[:60])
+        if op in ("const", "sym", "iter", "name", "global"):
+            return self.const()
+        if op in ("getitem", "scan_x", "vmap_elem"):
+            return self.tt(t.args[0])
+        if op == "attr":
+            return self.tt(t.args[0]) if t.args[1] in ("T", "real") else self.const()
+        if op == "unop":
+            return self.tt(t.args[1])
+        if op == "binop":
+            o, l, r = t.args
+            a, b = self.tt(l), self.tt(r)
+            if o == "*":
+                return self.mul(a, b, at)
+            if o == "/":
+                return self.div(a, b, at)
+            if o in ("+", "-"):
+                return self._add(a, b, at, o == "-", text=at._t)
+            if o == "**":
+                k = r.args[0] if r.op == "const" and isinstance(r.args[0], (int, float)) else None
+                if k is None:
+                    return self.const()
+                kf = Fraction(k).limit_denominator(1000)
+                if a.shift is not None and not a.wild:
+                    self.problems.append((self.ln, "power of a quantity that shifts with the samples"))
+                return Ty(a.deg * kf if a.deg is not None else None, None, a.wild)
+            return self.const()
+        if op in ("phi", "ifexp") and len(t.args) == 3:
+            a, b = self.tt(t.args[1]), self.tt(t.args[2])
+            return b if a.wild else a
+        if op == "loopout" and len(t.args) == 4:
+            return self.tt(t.args[3])
+        if op == "havoc":
+            return self.const()
+        if op == "setitem":
+            base, v = self.tt(t.args[0]), self.tt(t.args[2])
+            if base.wild:
+                return v
+            if not v.wild and (base.deg, base.shift) != (v.deg, v.shift):
+                self.problems.append((self.ln, f"an array receives entries of different type: {at._t}"))
+            return base
+        if op in ("tuple", "list") and t.args:
+            return self.tt(t.args[0])
+        if op == "call":
+            f, pos, kws = call_parts(t)
+            short = (array_fn(t) or "")
+            if f.op == "attr" and f.args[1] in ("sum", "mean", "copy", "astype", "reshape", "ravel", "flatten"):
+                return self.tt(f.args[0])
+            if short == "multiply" and len(pos) == 2:
+                return self.mul(self.tt(pos[0]), self.tt(pos[1]), at)
+            if short in ("sum", "array", "asarray", "abs", "absolute", "min", "median", "mean", "stack", "reshape", "cumsum") and pos:
+                return self.tt(pos[0])
+            if short in ("max", "maximum") and len(pos) == 2:
+                return self._add(self.tt(pos[0]), self.tt(pos[1]), at, False, joining="max", text=at._t)
+            if short == "max" and pos:
+                return self.tt(pos[0])
+            if short == "sqrt" and pos:
+                a = self.tt(pos[0])
+                return Ty(a.deg / 2 if a.deg is not None else None, a.shift, a.wild)
+            if short == "average" and pos:
+                w = kws.get("weights", pos[1] if len(pos) > 1 else None)
+                if w is not None:
+                    return self.div(self.mul(self.tt(pos[0]), self.tt(w), at), self.tt(w), at)
+            return self.const()
+        return self.const()
+
+    def _add(self, a, b, at, is_sub, joining="", text=""):
+        n0 = len(self.problems)
+        r = Typer.add(self, a, b, ast.parse("0").body[0].value if False else _FakeNode(at.lineno, text), is_sub, joining)
+        return r
+
+
+class _FakeNode(ast.Constant):
+    """an ast node that unparses to a given text (messages of the typing rules)"""
+
+    def __init__(self, lineno, text):
+        super().__init__(value=text)
+        self.lineno = lineno
+
+
 def blocking(ctx):
     p = ctx.p
     fi = p.func("stat_utils.blocking_analysis")
     params = [x.name for x in fi.params]
-    ty = Typer(fi, params[0], params[1])
-    ty.run(fi.node.body)
-    from ..model import returned_values
-    rets = [v_ for _, v_ in returned_values(fi.node)]
-    if not rets or not isinstance(rets[-1], ast.Tuple) or len(rets[-1].elts) != 2:
-        raise AnalysisError("blocking_analysis: unmodelled return")
-    mean_t, err_t = (ty.ty(e) for e in rets[-1].elts)
+    # typed on the value graph (helpers and private carrier classes opened in place); the syntax-directed typer is the
+    # fallback when the function does not hand back a (mean, error) pair there
+    ev0, fr0 = common.eval_with_terms(p, fi)
+    from ..symex import strip_wrappers as _sw0
+    R0 = _sw0(ev0.result(fr0))
+    if R0.op == "tuple" and len(R0.args) == 2:
+        ty = TermTyper(fi, params[0], params[1])
+        mean_t, err_t = ty.tt(R0.args[0]), ty.tt(R0.args[1])
+    else:
+        ty = Typer(fi, params[0], params[1])
+        ty.run(fi.node.body)
+        from ..model import returned_values
+        rets = [v_ for _, v_ in returned_values(fi.node)]
+        if not rets or not isinstance(rets[-1], ast.Tuple) or len(rets[-1].elts) != 2:
+            raise AnalysisError("blocking_analysis: unmodelled return")
+        mean_t, err_t = (ty.ty(e) for e in rets[-1].elts)
     ctx.ob("HOMOG-1", "blocking_analysis: every sum / difference joins terms of equal weight-degree",
            not ty.problems, "; ".join(f"line {l}: {m}" for l, m in ty.problems[:3]) or
            f"{len(ty.env)} typed variables", fi)
@@ -252,8 +372,29 @@ def pairing_blocking(ctx, fi):
         return t is not None and t.op == "getitem" and t.args[0] is base and t.args[1].op == "slice" and \
             t.args[1].args[0] is NEQL and is_const(t.args[1].args[1], None)
 
-    ctx.ob("PAIR-4", "blocking_analysis: the equilibration cut is applied to weights and samples alike",
-           is_cut(w_cut, W) and is_cut(e_cut, E), "weights[neql:], energies[neql:]", fi)
+    if not (is_cut(w_cut, W) and is_cut(e_cut, E)):
+        # the cut series may never be bound to the parameter names again (handed to a helper or a carrier object):
+        # decided by use -- every use of either series in what the function returns goes through [neql:]
+        R_ = ev.result(fr)
+        uses = {W: [], E: []}
+        for x in subterms(R_):
+            for a_ in x.args:
+                if a_ is W or a_ is E:
+                    uses[a_].append(x)
+        cut_w = [x for x in uses[W] if is_cut(x, W)]
+        cut_e = [x for x in uses[E] if is_cut(x, E)]
+        if cut_w and cut_e:
+            w_cut, e_cut = cut_w[0], cut_e[0]
+            raw = [show(x, maxdepth=2)[:50] for k_ in (W, E) for x in uses[k_] if not is_cut(x, k_) and
+                   not (x.op == "attr" and x.args[1] in ("shape", "size", "dtype", "ndim"))]
+            ctx.ob("PAIR-4", "blocking_analysis: the equilibration cut is applied to weights and samples alike", not raw,
+                   "every use of either series goes through [neql:]" if not raw else f"uncut use(s): {raw[:2]}", fi)
+        else:
+            ctx.ob("PAIR-4", "blocking_analysis: the equilibration cut is applied to weights and samples alike",
+                   False, f"weights cut: {bool(cut_w)}, samples cut: {bool(cut_e)}", fi)
+    else:
+        ctx.ob("PAIR-4", "blocking_analysis: the equilibration cut is applied to weights and samples alike",
+               True, "weights[neql:], energies[neql:]", fi)
     w_cut = w_cut if w_cut is not None else W
     e_cut = e_cut if e_cut is not None else E
     # stores inside the block loop
